@@ -1740,6 +1740,15 @@ pub(crate) trait StylesheetParser<'a>: BaseParser + Sized {
             Some(Token { kind: '@', .. }) => self.parse_at_rule(Self::parse_statement),
             Some(Token { kind: '+', .. }) => {
                 if !self.is_indented() {
+                    if self.is_plain_css()
+                        && self.flags().in_style_rule()
+                        && !self.flags().in_unknown_at_rule()
+                    {
+                        // nested style rules aren't allowed in plain CSS, whatever
+                        // their selector starts with
+                        return self.parse_declaration_or_style_rule();
+                    }
+
                     return self.parse_style_rule(None, None);
                 }
 
